@@ -61,13 +61,16 @@ def styles(rnd, case: dict) -> dict:
             last["default"] = c["args"].pop(last["name"])
     if rnd.random() < 0.2:
         c["params"].append({"name": "opts", "hint": None, "default": {"k": "list"}})
+    if rnd.random() < 0.5:
+        # keywords written in another order than the parameters are declared: checking follows the declaration
+        c["kw_order"] = rnd.sample(names, len(names))
     return c
 
 
 def run(tier: str, seed: int, rep: Report, model: Model) -> dict:
     rnd = rng_for("C02", seed)
     n = depth(tier, 1000, 40000)
-    rep.rule = ("conforming contexts (as C01) in a random call style: positional / keyword / mixed / omitted defaults / unhashable default; "
+    rep.rule = ("conforming contexts (as C01) in a random call style: positional / keyword (in declaration or any other order) / mixed / omitted defaults / unhashable default; "
                 "distinct = distinct (signature, values, style); non-trivial = at least two annotated tensors")
     cases = corpus()
     for _ in range(n):
